@@ -223,6 +223,25 @@ def run(ctx):
         r2.check(bool(rc_) and bool(cc_) and w is None, "admin-reload:acknowledged-only-after-reload_config", "admin RELOAD is answered only over the Ok edge of reload_config",
                  "admin RELOAD can be acknowledged (CommandComplete `RELOAD`) without reload_config having run and succeeded for this command: the operator is told the file is in force while CONFIG, POOLS and the server "
                  "connections are those of the old one", "", w and w != [0] and ar.describe_path(w))
+    # reload_config is called from places that do not know of each other (SIGHUP arm, autoreload task, any admin client's RELOAD). It publishes CONFIG
+    # when it has parsed and POOLS when it has built, from a snapshot taken when the build starts: of two calls that overlap, the one that read the older
+    # file can publish its pools last. One call at a time: a lock of a static async mutex is taken before parse and held until the return (D72)
+    if rl:
+        lk_ = [c for c in rl.calls("re:^tokio::sync::mutex::Mutex(<.*>)?::lock$") if any(o.kind == "static" for o in origins(rl, c.args[0], taint=True))]
+        pc_ = rl.calls("pgcat::config::parse")
+        fc_ = rl.calls("pgcat::pool::ConnectionPool::from_config")
+        ok_l = bool(lk_) and bool(pc_) and bool(fc_) and any(rl.dominates(c.block, pc_[0].block) and rl.dominates(c.block, fc_[0].block) for c in lk_)
+        held = False
+        if ok_l:
+            for l_, d_ in enumerate(rl.locals):
+                if re.match(r"^tokio::sync::mutex::MutexGuard<", d_["ty"]) and rl.varnames.get(l_):
+                    drops_ = [bb for bb, blk in enumerate(rl.blocks) if blk["term"]["k"] == "drop" and blk["term"]["pl"]["l"] == l_ and not blk["term"]["pl"]["p"] and not blk["cleanup"]]
+                    moved_ = [c.block for c in rl.calls("core::mem::drop") if any(op_local(a) == l_ for a in c.args)]
+                    if not any(fc_[0].block in rl.reach([d]) or pc_[0].block in rl.reach([d]) for d in drops_ + moved_):
+                        held = True
+        r2.check(ok_l and held, "reload:one-at-a-time", "reload_config takes a static async mutex before it parses and holds it until it returns",
+                 "reload_config is not serialised (%s): two reloads that overlap - the autoreload task and an admin RELOAD, two admin clients - can publish in the wrong order: CONFIG is the newer file, POOLS are the pools of the older "
+                 "one, and every later reload of the newer file sees `no change`" % ("no lock of a static tokio Mutex dominates parse and from_config" if not ok_l else "the guard is dropped before the pools are built"))
     rcallers = F.callers_of("pgcat::config::reload_config")
     r2.check(set(rcallers) <= {"bin:pgcat::main::{closure#1}", "bin:pgcat::main::{closure#1}::{closure#2}", "pgcat::admin::reload::{closure#0}"}, "reload-callers", "reload_config is called by SIGHUP, autoreload and admin RELOAD only", "reload_config callers: %s" % rcallers)
 
